@@ -19,7 +19,9 @@ CONFIG = {
                   "(fault in the middle of a batch included): next() pops exactly the pending results, the iterator "
                   "yields Ok(chain(items before the fault)) then the error (into_iter_yields/_prefix_exact), and used "
                   "as a Source under further adapters it is transparent (into_iter_transparent), so all the above carry "
-                  "over. The theorems are about the Lean model; that the model is the Rust code "
+                  "over; source side: the script is left exactly behind the step of the fault (run_state_spec, "
+                  "no_read_ahead_*); HashSet/BTreeSet collectors and the streaming Turtle/TriG/RDF-XML serializers "
+                  "(constructor / format call j / finish failing) as instances (collectSet_spec, serializeRio_spec). The theorems are about the Lean model; that the model is the Rust code "
                   "is checked differentially on every run (call log, result, error side and payload, counts, final "
                   "store, bytes written), exhaustively in the fault position.",
     "level_note": "Differential, not proof: correspondence model<->/repo; Rio's behaviour inside one parse_step (batch "
@@ -27,8 +29,13 @@ CONFIG = {
                   "store model only tracks the object literal's index slot (subject/predicate/graph names are interned "
                   "beforehand in every generated scenario); beyond the first adapter the harness type-erases the "
                   "pipeline between adapters (sink errors travel boxed through the real adapters); at most one "
-                  ".into_iter() per chain. The Turtle/TriG/RDF-XML pretty serializers (which collect before writing) "
-                  "are not modelled. No native_decide.",
+                  ".into_iter() per chain. Where a sink failure position depends on bytes or index slots (NT/NQ writer, "
+                  "streaming Turtle/TriG/RDF-XML formatters of rio, 16-bit term index) the model's prediction is compared "
+                  "as a model field only; the property itself is evaluated on the Rust side from what the writer was "
+                  "observed to refuse (no byte-exact demand) resp. from slot arithmetic that is calibrated by probing "
+                  "the real index at run time. The number of Ok(true) rounds (info.steps) is informational. The pretty "
+                  "Turtle/TriG serializers (which collect before writing), the JSON-LD and RDF/XML parser sources are "
+                  "not driven. No native_decide.",
     "tables": [],
     "lean_targets": ["SophiaProofs.Props.C15", "SophiaProofs.Audit.C15"],
     "theorems": ["run_spec", "run_spec_iter", "fuel_suffices", "specSource_spec",
@@ -39,7 +46,9 @@ CONFIG = {
                  "forEach_spec", "counts_insert_all", "counts_remove_all",
                  "into_iter_next_spec", "into_iter_yields", "into_iter_prefix_exact", "into_iter_run_spec",
                  "into_iter_transparent", "into_iter_prefix_exact_source_fault", "into_iter_prefix_exact_sink_fault",
-                 "into_iter_nothing_after_source_fault", "into_iter_blame_source", "into_iter_blame_sink"],
+                 "into_iter_nothing_after_source_fault", "into_iter_blame_source", "into_iter_blame_sink",
+                 "run_state_spec", "no_read_ahead_source_fault", "no_read_ahead_sink_fault",
+                 "collectSet_spec", "serializeRio_spec"],
     "native_ok": [],
     "trivial_re": r"^log=_ ret=ok",
     "rule": "item sequences (len 0..20, values colliding mod the filter moduli) x well-typed adapter chains (depth 0..3 "
